@@ -39,9 +39,13 @@ func HFlistDecode() {
 	k := vparam("k")
 	var o refOpts
 	if om := vparam("opts"); om >= 0 {
-		o = refOpts{Uid: om&1 != 0, Gid: om&2 != 0, Devices: om&4 != 0, Links: om&8 != 0, Checksum: om&16 != 0}
+		o = refOpts{Uid: om&1 != 0, Gid: om&2 != 0, Devices: om&4 != 0, Specials: om&4 != 0, Links: om&8 != 0, Checksum: om&16 != 0}
+		if om&32 != 0 {
+			o.Specials = !o.Devices
+		}
 	} else {
 		o = refOpts{Uid: nd_bool(), Gid: nd_bool(), Devices: nd_bool(), Links: nd_bool(), Checksum: nd_bool()}
+		o.Specials = nd_bool()
 	}
 	var ents []refEntry
 	var wire []byte
@@ -104,7 +108,7 @@ func HFlistDecode() {
 				e.Rdev = lastRdev
 			}
 		}
-		if o.Devices && refIsDevice(e.Mode) {
+		if o.hasRdev(e.Mode) {
 			lastRdev = e.Rdev
 		} else {
 			lastRdev = 0
@@ -124,7 +128,7 @@ func HFlistDecode() {
 	defer fsys.Cleanup()
 	conn := newVconn(wire)
 	rt := newRecvTransfer(fsys, conn, 0, &TransferOpts{
-		PreserveUid: o.Uid, PreserveGid: o.Gid, PreserveDevices: o.Devices, PreserveLinks: o.Links, AlwaysChecksum: o.Checksum,
+		PreserveUid: o.Uid, PreserveGid: o.Gid, PreserveDevices: o.Devices, PreserveSpecials: o.Specials, PreserveLinks: o.Links, AlwaysChecksum: o.Checksum,
 	})
 	fl, err := rt.ReceiveFileList()
 	vassert(err == nil, "a valid protocol-27 file list was rejected")
@@ -152,7 +156,7 @@ func HFlistDecode() {
 		if o.Gid {
 			vassert(f.Gid == e.Gid, "gid")
 		}
-		if o.Devices && refIsDevice(e.Mode) {
+		if o.hasRdev(e.Mode) {
 			vassert(f.Rdev == e.Rdev, "rdev")
 			vreach("rdev")
 		}
